@@ -1,6 +1,7 @@
 package vc
 
 import (
+	"sort"
 	"fmt"
 	"go/token"
 	"go/types"
@@ -331,7 +332,7 @@ func (e *Exec) loopHeader(fr *Frame, h *ssa.BasicBlock, st *State, fwd []edge, b
 	// static modification set of the loop body
 	ms := &ModSet{Comps: map[string]bool{}}
 	localsTouched := map[*ssa.Alloc]bool{}
-	for b := range body {
+	for _, b := range sortedBlocks(body) {
 		for _, in := range b.Instrs {
 			e.P.InstrMods(in, ms)
 			switch x := in.(type) {
@@ -380,10 +381,15 @@ func (e *Exec) loopHeader(fr *Frame, h *ssa.BasicBlock, st *State, fwd []edge, b
 	}
 	// havoc
 	e.havoc(st, ms)
+	var lkeys []string
 	for a := range localsTouched {
 		if key, ok := fr.localKey(a); ok {
-			e.havocLocal(st, key)
+			lkeys = append(lkeys, key)
 		}
+	}
+	sort.Strings(lkeys)
+	for _, key := range lkeys {
+		e.havocLocal(st, key)
 	}
 	hv := map[*ssa.Phi]Value{}
 	for _, phi := range phis {
@@ -491,7 +497,7 @@ func (e *Exec) loopInvariants(fr *Frame, h *ssa.BasicBlock, phis []*ssa.Phi, ini
 		add(pname+">=init", true, func(v map[*ssa.Phi]Value, st *State) *Term { return Le(init, v[phi].(*Term)) })
 		add(pname+"<=init", true, func(v map[*ssa.Phi]Value, st *State) *Term { return Le(v[phi].(*Term), init) })
 		// bound candidates from comparisons inside the loop that involve phi (or phi+const)
-		for b := range body {
+		for _, b := range sortedBlocks(body) {
 			for _, in := range b.Instrs {
 				bo, ok := in.(*ssa.BinOp)
 				if !ok {
@@ -767,7 +773,7 @@ func (e *Exec) frameCandidates(fr *Frame, h *ssa.BasicBlock, phis []*ssa.Phi, in
 	}
 	stores := map[string][]st1{}
 	bad := map[string]bool{}
-	for b := range body {
+	for _, b := range sortedBlocks(body) {
 		for _, in := range b.Instrs {
 			switch x := in.(type) {
 			case *ssa.Store:
@@ -806,7 +812,13 @@ func (e *Exec) frameCandidates(fr *Frame, h *ssa.BasicBlock, phis []*ssa.Phi, in
 			}
 		}
 	}
-	for comp, list := range stores {
+	var comps []string
+	for comp := range stores {
+		comps = append(comps, comp)
+	}
+	sort.Strings(comps)
+	for _, comp := range comps {
+		list := stores[comp]
 		if bad[comp] || len(list) != 1 {
 			continue
 		}
